@@ -490,4 +490,203 @@ Section LookupProofs.
     exact (b_cov _ _ _ HB).
   Qed.
 
+  (* ---------- completeness (theorem 5) ---------- *)
+
+  (* where a peer the lookup has learned of can be: already queried, one of the local
+     ids, still queued, dominated by the current best, or in the batch being processed *)
+  Definition Cov (s : st) (extra : list pid) (p : pid) : Prop :=
+    In p (queried s) \/ In p selfs_all \/ In p (cand s) \/ dom (best s) p \/ In p extra.
+
+  Definition LInv (init : list pid) (s : st) (extra : list pid) : Prop :=
+    forall x, In x (learned init (sent s)) -> Cov s extra x.
+
+  Lemma consider_budget s n : budget_hit (consider s n) = false -> budget_hit s = false.
+  Proof.
+    unfold Model.Lookup.consider. repeat case_if; cbn [budget_hit]; intro H; try exact H; discriminate.
+  Qed.
+
+  Lemma fold_consider_budget nodes : forall s,
+    budget_hit (fold_left consider nodes s) = false -> budget_hit s = false.
+  Proof.
+    induction nodes as [|n nodes IH]; intros s H; cbn [fold_left] in H; [exact H|].
+    apply (consider_budget s n), IH, H.
+  Qed.
+
+  Lemma consider_cov s n extra x : InvS s -> budget_hit (consider s n) = false ->
+    Cov s (n :: extra) x -> Cov (consider s n) extra x.
+  Proof.
+    intros [[Q1 Q2 Q3 Q4] HB] Hb Hc. unfold Cov in *.
+    destruct (consider_fixed s n) as [G1 [G2 G3]]. rewrite G1, G2. clear G1 G2 G3.
+    revert Hb. unfold Model.Lookup.consider.
+    destruct (mem n (queried s) || mem n (queued s) || mem n selfs_all) eqn:E.
+    - intros _. destruct Hc as [H|[H|[H|[H|[<-|H]]]]]; try tauto.
+      apply orb_true_iff in E. destruct E as [E|E]; [apply orb_true_iff in E; destruct E as [E|E]|];
+        apply mem_In in E.
+      + left; exact E.
+      + right; right; left. apply Q3, E.
+      + right; left; exact E.
+    - destruct (dominated (best s) n) eqn:Ed.
+      + intros _. destruct Hc as [H|[H|[H|[H|[<-|H]]]]]; try tauto.
+        right; right; right; left.
+        apply dominated_dom; [apply (b_sorted _ _ _ HB)|apply (b_len _ _ _ HB)|exact Ed].
+      + destruct (N.to_nat LK_MAX_CANDIDATE_NODES <=? length (cand s))%nat; cbn [budget_hit cand];
+          [discriminate|]. intros _.
+        destruct Hc as [H|[H|[H|[H|[<-|H]]]]]; try tauto.
+        * right; right; left. apply in_or_app. left; exact H.
+        * right; right; left. apply in_or_app. right; left; reflexivity.
+  Qed.
+
+  Lemma fold_consider_cov nodes : forall s extra x, InvS s ->
+    budget_hit (fold_left consider nodes s) = false ->
+    Cov s (nodes ++ extra) x -> Cov (fold_left consider nodes s) extra x.
+  Proof.
+    induction nodes as [|n nodes IH]; intros s extra x HI Hb Hc; cbn [fold_left app] in *; [exact Hc|].
+    apply IH; [apply consider_inv; exact HI|exact Hb|].
+    apply consider_cov; [exact HI|eapply fold_consider_budget; exact Hb|exact Hc].
+  Qed.
+
+  Lemma process_one_some s p nodes : reply p = Some nodes ->
+    process_one s p =
+    fold_left consider nodes
+      (mkSt (firstn count (insert p (best s))) (cand s) (p :: queried s) (queued s) (p :: sent s) (budget_hit s)).
+  Proof. intro E. unfold Model.Lookup.process_one. rewrite E. reflexivity. Qed.
+
+  Lemma process_one_none s p : reply p = None ->
+    process_one s p = mkSt (best s) (cand s) (p :: queried s) (queued s) (p :: sent s) (budget_hit s).
+  Proof. intro E. unfold Model.Lookup.process_one. rewrite E. reflexivity. Qed.
+
+  Lemma process_one_budget s p : budget_hit (process_one s p) = false -> budget_hit s = false.
+  Proof.
+    destruct (reply p) as [nodes|] eqn:E.
+    - rewrite (process_one_some s p nodes E). intro H. apply fold_consider_budget in H. exact H.
+    - rewrite (process_one_none s p E). intro H. exact H.
+  Qed.
+
+  Lemma fold_process_budget batch : forall s,
+    budget_hit (fold_left process_one batch s) = false -> budget_hit s = false.
+  Proof.
+    induction batch as [|p batch IH]; intros s H; cbn [fold_left] in H; [exact H|].
+    apply (process_one_budget s p), IH, H.
+  Qed.
+
+  Lemma learned_cons init p req x :
+    In x (learned init (p :: req)) <->
+    In x (learned init req) \/ exists l, reply p = Some l /\ In x l.
+  Proof.
+    unfold Model.Lookup.learned. cbn [flat_map]. rewrite !in_app_iff. split.
+    - intros [H|[H|H]]; [left; left; exact H| |left; right; exact H].
+      destruct (reply p) as [l|]; [right; exists l; split; [reflexivity|exact H]|destruct H].
+    - intros [[H|H]|[l [E H]]]; [left; exact H|right; right; exact H|].
+      right; left. rewrite E. exact H.
+  Qed.
+
+  Lemma process_one_linv init s p rest : In self selfs_all -> InvS s ->
+    ~ In p (queried s) -> ~ In p selfs_all ->
+    budget_hit (process_one s p) = false ->
+    LInv init s (p :: rest) -> LInv init (process_one s p) rest.
+  Proof.
+    intros Hself [HQ HB] Hq Hs Hb HL x Hx.
+    destruct (process_one_fixed s p) as [_ [_ G3]]. rewrite G3 in Hx. clear G3.
+    apply learned_cons in Hx.
+    destruct (reply p) as [nodes|] eqn:E.
+    - rewrite (process_one_some s p nodes E) in *.
+      apply fold_consider_cov; [|exact Hb|].
+      + split; cbn [cand queued best queried sent]; [exact HQ|].
+        pose proof (InvB_step _ _ _ p Hself HB Hq Hs) as H. rewrite E in H. exact H.
+      + unfold Cov; cbn [cand queried best].
+        destruct Hx as [Hx|[l [El Hx]]].
+        * destruct (HL x Hx) as [H|[H|[H|[H|[<-|H]]]]].
+          -- left; right; exact H.
+          -- right; left; exact H.
+          -- right; right; left; exact H.
+          -- right; right; right; left. apply dom_step; exact H.
+          -- left; left; reflexivity.
+          -- right; right; right; right. apply in_or_app. right; exact H.
+        * inv El. right; right; right; right. apply in_or_app. left; exact Hx.
+    - rewrite (process_one_none s p E). unfold Cov; cbn [cand queried best].
+      destruct Hx as [Hx|[l [El _]]]; [|discriminate].
+      destruct (HL x Hx) as [H|[H|[H|[H|[<-|H]]]]]; try tauto.
+      + left; right; exact H.
+      + left; left; reflexivity.
+  Qed.
+
+  Lemma fold_process_linv init : In self selfs_all -> forall batch s, InvS s -> NoDup batch ->
+    (forall x, In x batch -> ~ In x (queried s) /\ ~ In x selfs_all) ->
+    budget_hit (fold_left process_one batch s) = false ->
+    LInv init s batch -> LInv init (fold_left process_one batch s) [].
+  Proof.
+    intro Hself. induction batch as [|p batch IH]; intros s HI Hnd Hb Hbud HL; cbn [fold_left] in *; [exact HL|].
+    inv Hnd. destruct (Hb p (or_introl eq_refl)) as [Hq Hs].
+    apply IH; [apply process_one_inv; assumption|assumption| |exact Hbud|].
+    - intros x Hx. destruct (process_one_fixed s p) as [_ [G2 _]]. rewrite G2.
+      destruct (Hb x (or_intror Hx)) as [Hxq Hxs]. split; [|exact Hxs].
+      intros [<-|Hin]; contradiction.
+    - apply process_one_linv; try assumption. eapply fold_process_budget; exact Hbud.
+  Qed.
+
+  Lemma loop_budget fuel : forall s, budget_hit (loop fuel s) = false -> budget_hit s = false.
+  Proof.
+    induction fuel as [|f IH]; intro s; cbn [Model.Lookup.loop].
+    - cbn [budget_hit]. intro H. apply orb_false_iff in H. tauto.
+    - destruct (cand s) as [|c0 cl] eqn:Ec; [auto|]. rewrite <- Ec.
+      destruct (pop_batch (best s) (queried s) (cand s) (queued s) []) as [[c' q'] batch].
+      destruct batch as [|p batch]; [cbn [budget_hit]; auto|].
+      intro H. apply IH, fold_process_budget in H. exact H.
+  Qed.
+
+  Lemma alpha_pos : (0 < N.to_nat LK_ALPHA)%nat.
+  Proof. vm_compute. lia. Qed.
+
+  Lemma loop_complete init : In self selfs_all -> forall fuel s, InvS s -> LInv init s [] ->
+    budget_hit (loop fuel s) = false -> LInv init (loop fuel s) [] /\ cand (loop fuel s) = [].
+  Proof.
+    intro Hself. induction fuel as [|f IH]; intros s HI HL; cbn [Model.Lookup.loop].
+    - cbn [budget_hit cand]. intro Hb. split; [exact HL|].
+      destruct (cand s); [reflexivity|]. rewrite orb_true_r in Hb. discriminate.
+    - destruct (cand s) as [|c0 cl] eqn:Ec; [intros _; split; [exact HL|exact Ec]|]. rewrite <- Ec.
+      destruct (pop_batch (best s) (queried s) (cand s) (queued s) []) as [[c' q'] batch] eqn:Ep.
+      destruct (pop_batch_inv s c' q' batch HI Ep) as [HI0 [Hnd [Hb [_ Hcov]]]].
+      assert (HL0 : LInv init (mkSt (best s) c' (queried s) q' (sent s) (budget_hit s)) batch).
+      { intros x Hx. cbn [sent] in Hx. unfold Cov; cbn [cand queried best].
+        destruct (HL x Hx) as [H|[H|[H|[H|[]]]]]; try tauto.
+        destruct (Hcov x H) as [G|[G|[G|G]]]; try tauto.
+        right; right; right; left. destruct HI as [_ HB].
+        apply dominated_dom; [apply (b_sorted _ _ _ HB)|apply (b_len _ _ _ HB)|exact G]. }
+      destruct batch as [|p batch].
+      + intros _. split; [exact HL0|]. cbn [cand]. eapply pop_batch_nil; [apply alpha_pos|exact Ep].
+      + intro Hbud.
+        assert (Hbq : forall x, In x (p :: batch) ->
+                  ~ In x (queried (mkSt (best s) c' (queried s) q' (sent s) (budget_hit s))) /\ ~ In x selfs_all).
+        { cbn [queried]. intros x Hx. destruct (Hb x Hx). tauto. }
+        apply IH; [apply fold_process_inv; assumption| |exact Hbud].
+        apply fold_process_linv; try assumption. eapply loop_budget; exact Hbud.
+  Qed.
+
+  Lemma lookup_complete init :
+    NoDup init -> (forall p, In p init -> ~ In p selfs_all) ->
+    incl selfs_marked selfs_all -> In self selfs_marked ->
+    let s := lookup init in
+    budget_hit s = false ->
+    forall p, (In p init \/ exists q l, In q (sent s) /\ reply q = Some l /\ In p l) ->
+      In p (sent s) \/ In p selfs_all \/
+      (length (best s) = count /\ forall w, In w (best s) -> dist w <= dist p).
+  Proof.
+    intros Hnd Hi Hm Hs. cbv zeta. intros Hbud p Hp.
+    pose proof (lookup_inv init Hnd Hi Hm Hs) as [_ HB].
+    unfold Model.Lookup.lookup in *.
+    destruct (loop_complete init (Hm _ Hs) (N.to_nat LK_MAX_ITERATIONS) (init_state init)) as [HL Hc].
+    - apply init_inv; [apply Hm, Hs|assumption|assumption].
+    - intros x Hx. unfold Model.Lookup.learned in Hx. cbn [Model.Lookup.init_state sent flat_map] in Hx.
+      rewrite app_nil_r in Hx. right; right; left. exact Hx.
+    - exact Hbud.
+    - assert (Hl : In p (learned init (sent (loop (N.to_nat LK_MAX_ITERATIONS) (init_state init))))).
+      { unfold Model.Lookup.learned. apply in_or_app. destruct Hp as [Hp|[q [l [Hq [El Hp]]]]]; [left; exact Hp|].
+        right. apply in_flat_map. exists q. split; [exact Hq|]. rewrite El. exact Hp. }
+      destruct (HL p Hl) as [H|[H|[H|[H|[]]]]].
+      + destruct (b_queried_split _ _ _ HB p H) as [G|G]; [right; left; apply Hm, G|left; exact G].
+      + right; left; exact H.
+      + rewrite Hc in H. destruct H.
+      + right; right. exact H.
+  Qed.
+
 End LookupProofs.
